@@ -96,7 +96,7 @@ def execute_and_judge(ctx, cases):
                        "sequences whose halting prefixes return at least two different states")
     ctx.cov["samples"] = [{k: v for k, v in json.loads(x).items() if k != "states"} for x in lines[1:2] + lines[-1:]]
     if not ctx.replay:
-        for need in ("halt0", "halt32", "halt5", "trap", "spin", "oog"):
+        for need in ("halt0", "halt32", "halt5", "halt33", "halt200", "trap", "spin", "oog"):
             if kinds.get(need, 0) == 0:
                 raise vf.Infra("no %s ending was executed (vacuous run)" % need)
     vf.validate_trace(ctx, "AccumulateInv_Trace", lines, shard=400 if ctx.quick else 2500, par=DEV_PAR or 14, timeout=3000, heap="4g",
